@@ -2,8 +2,10 @@
 # try_seed.sh <patch.diff> <prop> [tier]: applies the patch to /repo, runs the check, reverts. Prints the exit code.
 patch=$1; prop=$2; tier=${3:-quick}
 git -C /repo apply $patch || { echo "apply failed"; exit 9; }
+cp /verif/evidence/$prop.json /tmp/try_seed.$$.ev 2>/dev/null
 cd /verif && ./bin/vp check $prop --tier $tier > /tmp/try_seed.$$.log 2>&1; rc=$?
 git -C /repo checkout -- .
+[ -f /tmp/try_seed.$$.ev ] && mv /tmp/try_seed.$$.ev /verif/evidence/$prop.json
 grep -E "VIOLATION|KNOWN|INCONCLUSIVE|BROKEN|obligations" /tmp/try_seed.$$.log | head -12
 echo "exit=$rc"
 rm -f /tmp/try_seed.$$.log
